@@ -45,7 +45,17 @@ func TestVerif_C15Server(t *testing.T) {
 	fs.PlantDir("/d", 0777, 0, 0)
 	fs.PlantFile("/d/f", []byte("hello world, this is file f"), 0666, 0, 0)
 	fs.PlantSymlink("/d/ln", "f")
-	n, err := New(fs, ExportOptions{})
+	copts := ExportOptions{}
+	if v, _ := strconv.Atoi(os.Getenv("VERIF_C15_TRANSFER_SIZE")); v > 0 {
+		copts.TransferSize = v
+		fs.MaxSize = 8 << 20
+		big := make([]byte, 3<<20)
+		for i := range big {
+			big[i] = byte('a' + i%23)
+		}
+		fs.PlantFile("/d/big", big, 0666, 0, 0)
+	}
+	n, err := New(fs, copts)
 	if err != nil {
 		t.Fatal(err)
 	}
@@ -103,7 +113,7 @@ type vfChild struct {
 	exited     chan struct{}
 }
 
-func vfStartChild(idx int) (*vfChild, error) {
+func vfStartChild(idx int, extraEnv ...string) (*vfChild, error) {
 	dir := os.Getenv("VERIF_SCRATCH_DIR")
 	if dir == "" {
 		dir = os.TempDir()
@@ -114,7 +124,7 @@ func vfStartChild(idx int) (*vfChild, error) {
 		return nil, err
 	}
 	cmd := exec.Command(os.Args[0], "-test.run", "^TestVerif_C15Server$", "-test.timeout", "0")
-	cmd.Env = append(os.Environ(), "VERIF_C15_SERVER=1", "VERIF_LOGS=1", "VERIF_OUT=", "VERIF_JOURNAL=")
+	cmd.Env = append(append(os.Environ(), "VERIF_C15_SERVER=1", "VERIF_LOGS=1", "VERIF_OUT=", "VERIF_JOURNAL="), extraEnv...)
 	cmd.Stderr = lf
 	stdin, _ := cmd.StdinPipe()
 	stdout, _ := cmd.StdoutPipe()
@@ -641,5 +651,112 @@ func TestVerif_C15(t *testing.T) {
 	rec.Set("streams_sent", nStreams)
 	_, g, _ := child.stats()
 	rec.Set("server_goroutines_at_end", g)
+	vfC15ReplyLengths(rec)
 	rec.Sample(map[string]any{"stream_classes": []string{"random-bytes", "random-record", "bitflip", "length-corruption", "header-corruption", "truncated-call", "pipelined", "cut-at-every-byte", "huge-*", "tiny-fragments", "pipeline"}, "streams": nStreams})
+}
+
+// vfC15ReplyLengths: a second server process with a 2 MiB transfer size. READs are chosen so that
+// the REPLY records have lengths just below, exactly at and just above the reply writer's fragment
+// size (1 MiB) and twice that; each READ is pipelined with a NULL call. Every call gets exactly one
+// reply record of its own, in order, with its XID, and the READ carries exactly the file's bytes.
+func vfC15ReplyLengths(rec *evid.Rec) {
+	child, err := vfStartChild(1, "VERIF_C15_TRANSFER_SIZE=2097152")
+	if err != nil {
+		rec.Inconclusive(1)
+		return
+	}
+	defer child.stop()
+	pc, err := vfDialRM(child.port)
+	if err != nil {
+		rec.Inconclusive(1)
+		return
+	}
+	defer pc.c.Close()
+	raw, _, _ := pc.call(vfProgMount, 1, (&xdrw.W{}).Str("/").B)
+	rep, derr := rfc.DecodeReply(raw)
+	if derr != nil {
+		rec.Inconclusive(1)
+		return
+	}
+	mr, _ := rfc.DecodeMount(1, rep.Body)
+	d, _, _ := pc.nfs(3, xdrw.ArgDirop(vfFH(mr.FH), "d"))
+	if d == nil || d.Status != 0 {
+		rec.Inconclusive(1)
+		return
+	}
+	b, _, _ := pc.nfs(3, xdrw.ArgDirop(vfFH(d.FH), "big"))
+	if b == nil || b.Status != 0 {
+		rec.Inconclusive(1)
+		return
+	}
+	big := vfFH(b.FH)
+	const overhead = 128 // RPC reply header 24 + status 4 + post_op_attr 88 + count 4 + eof 4 + opaque length 4
+	for _, recLen := range []int{1<<20 - 8, 1<<20 - 4, 1 << 20, 1<<20 + 4, 1<<20 + 8, 2<<20 - 4, 2 << 20, 65536, 65536 * 3} {
+		count := uint32(recLen - overhead)
+		if count > 2097152 {
+			count = 2097152
+		}
+		evid.Journal(fmt.Sprintf("reply-length sweep: READ count=%d (reply record of %d bytes) + NULL", count, recLen))
+		conn, err := vfDialRM(child.port)
+		if err != nil {
+			rec.Inconclusive(1)
+			return
+		}
+		conn.c.SetDeadline(time.Now().Add(60 * time.Second))
+		x1, x2 := uint32(70000+recLen%1000), uint32(80000+recLen%1000)
+		m1 := xdrw.Record(append(xdrw.CallHeader(x1, vfProgNFS, 3, 6, vfRootCred()), xdrw.ArgRead(big, 0, count)...))
+		m2 := xdrw.Record(xdrw.CallHeader(x2, vfProgNFS, 3, 0, xdrw.Cred{}))
+		go conn.c.Write(append(m1, m2...))
+		readRecord := func() ([]byte, error) {
+			var out []byte
+			for {
+				var h [4]byte
+				if _, err := io.ReadFull(conn.c, h[:]); err != nil {
+					return out, err
+				}
+				v := uint32(h[0])<<24 | uint32(h[1])<<16 | uint32(h[2])<<8 | uint32(h[3])
+				fb := make([]byte, v&0x7fffffff)
+				if _, err := io.ReadFull(conn.c, fb); err != nil {
+					return out, err
+				}
+				out = append(out, fb...)
+				if v&0x80000000 != 0 {
+					return out, nil
+				}
+				if len(out) > 8<<20 {
+					return out, fmt.Errorf("record does not end")
+				}
+			}
+		}
+		rec.Eval(2)
+		r1, e1 := readRecord()
+		bad := ""
+		if e1 != nil {
+			bad = fmt.Sprintf("the READ reply record did not end properly: %v after %d bytes", e1, len(r1))
+		} else if rp, derr := rfc.DecodeReply(r1); derr != nil || rp.XID != x1 {
+			bad = fmt.Sprintf("first record is not the READ reply (xid %v, %v)", rp, derr)
+		} else if res, derr := rfc.DecodeNFS(6, rp.Body); derr != nil {
+			bad = fmt.Sprintf("the READ reply record (%d bytes) does not decode exactly: %v", len(r1), derr)
+		} else if res.Status != 0 || uint32(len(res.Data)) != count {
+			bad = fmt.Sprintf("READ count=%d answered status %d with %d bytes", count, res.Status, len(res.Data))
+		}
+		if bad == "" {
+			r2, e2 := readRecord()
+			if e2 != nil {
+				bad = fmt.Sprintf("no reply record for the NULL call that followed: %v", e2)
+			} else if rp, derr := rfc.DecodeReply(r2); derr != nil || rp.XID != x2 || len(rp.Body) != 0 {
+				bad = fmt.Sprintf("the record after the READ reply is not the NULL reply: %v %+v", derr, rp)
+			}
+		}
+		conn.c.Close()
+		if bad != "" {
+			cls := "other"
+			if recLen%(1<<20) == 0 {
+				cls = "multiple-of-the-writer-fragment-size"
+			}
+			rec.Violate("C15/replies-not-one-record-each-in-order/reply-length="+cls, fmt.Sprintf("READ count=%d (a reply record of %d bytes) pipelined with NULL: %s", count, recLen, bad), nil)
+		}
+		rec.Distinct(fmt.Sprintf("reply-length|%d|ok=%v", recLen, bad == ""))
+	}
+	child.stats()
 }
